@@ -151,6 +151,9 @@ func sealpt2is(i int, b0, b1 uint8) bool               { return true }
 func sealad32is(i int, d [32]byte) bool                { return true }
 func openad32is(i int, d [32]byte) bool                { return true }
 func sha256cat(d [32]byte, data []byte) (r [32]byte)    { return }
+
+//   sha256catpub(d,key): SHA-256 of d followed by key.SerializeCompressed()
+func sha256catpub(d [32]byte, key *btcec.PublicKey) (r [32]byte) { return }
 func hkdfx(ck [32]byte, input []byte, j int) (r [32]byte) { return }
 
 // ---- spec functions --------------------------------------------------------
@@ -645,6 +648,75 @@ func hsready(b *Machine) bool {
 		is[*ConnData](b.cfg.ConnData) && as[*ConnData](b.cfg.ConnData) != nil
 }
 
+// Point assertions inside the act parser and writer (checked wherever the
+// handshake wrappers inline them). The act-1 clause: the MAC of act 1 is
+// verified against the transcript that absorbed the *unmasked* remote
+// ephemeral key (XX: me token; KK: e token) - old() is the state in which the
+// act parser was entered.
+//@ func (h *handshakeState) readMsgPattern(r io.Reader, mp MessagePattern) (err error)
+//@   props C04 C16 C03
+//@   pointsonly
+//@   at "if mp.ActNum == 2 {" assert @C03 implies(mp.ActNum == act1, h.remoteEphemeral != nil && openad32is(nopens()-1, sha256catpub(old(h.handshakeDigest), h.remoteEphemeral)))
+//@   at "if len(payload) == 0 {" assert @C03 implies(mp.ActNum == act1, h.remoteEphemeral != nil && openad32is(nopens()-1, sha256catpub(old(h.handshakeDigest), h.remoteEphemeral)))
+//@   at "if err := h.readTokens(r, mp.Tokens); err != nil {" assert @C04 implies(mp.ActNum == act3, version == h.version) && implies(mp.ActNum != act3, h.minVersion <= version && version <= h.maxVersion && implies(h.initiator, h.version == version))
+
+//@ func (h *handshakeState) writeMsgPattern(w io.Writer, mp MessagePattern) (err error)
+//@   props C04 C16 C03
+//@   pointsonly
+//@   at "copy(payload, payloadWriter.Bytes())" assert @C04 len(bufbytes(&payloadWriter)) <= len(payload)
+
+// lemmaNoisePatterns: the two pattern tables are the Noise patterns the
+// handshake is specified by (XXeke: -> me / <- e ee s es / -> s se;
+// KK: pre -> s, <- s; -> e es ss / <- e ee se).
+func lemmaNoisePatterns() {}
+
+//@ func lemmaNoisePatterns()
+//@   props C03 C04
+//@   withinit
+//@   noframe
+//@   ensures len(XXPattern.PreMessages) == 0 && len(XXPattern.Pattern) == 3
+//@   ensures len(XXPattern.Pattern[0].Tokens) == 1 && XXPattern.Pattern[0].Tokens[0] == me && XXPattern.Pattern[0].Initiator && XXPattern.Pattern[0].ActNum == act1
+//@   ensures len(XXPattern.Pattern[1].Tokens) == 4 && XXPattern.Pattern[1].Tokens[0] == e && XXPattern.Pattern[1].Tokens[1] == ee &&
+//@           XXPattern.Pattern[1].Tokens[2] == s && XXPattern.Pattern[1].Tokens[3] == es && !XXPattern.Pattern[1].Initiator && XXPattern.Pattern[1].ActNum == act2
+//@   ensures len(XXPattern.Pattern[2].Tokens) == 2 && XXPattern.Pattern[2].Tokens[0] == s && XXPattern.Pattern[2].Tokens[1] == se &&
+//@           XXPattern.Pattern[2].Initiator && XXPattern.Pattern[2].ActNum == act3
+//@   ensures len(KKPattern.PreMessages) == 2 && len(KKPattern.Pattern) == 2
+//@   ensures len(KKPattern.PreMessages[0].Tokens) == 1 && KKPattern.PreMessages[0].Tokens[0] == s && KKPattern.PreMessages[0].Initiator
+//@   ensures len(KKPattern.PreMessages[1].Tokens) == 1 && KKPattern.PreMessages[1].Tokens[0] == s && !KKPattern.PreMessages[1].Initiator
+//@   ensures len(KKPattern.Pattern[0].Tokens) == 3 && KKPattern.Pattern[0].Tokens[0] == e && KKPattern.Pattern[0].Tokens[1] == es &&
+//@           KKPattern.Pattern[0].Tokens[2] == ss && KKPattern.Pattern[0].Initiator && KKPattern.Pattern[0].ActNum == act1
+//@   ensures len(KKPattern.Pattern[1].Tokens) == 3 && KKPattern.Pattern[1].Tokens[0] == e && KKPattern.Pattern[1].Tokens[1] == ee &&
+//@           KKPattern.Pattern[1].Tokens[2] == se && !KKPattern.Pattern[1].Initiator && KKPattern.Pattern[1].ActNum == act2
+
+// verifNewMachineXX / verifNewMachineKK: NewBrontideMachine establishes the
+// precondition of the handshake wrappers (hsfresh), with the version bounds
+// clamped for the key-based pattern.
+func verifNewMachineXX(cfg *BrontideMachineConfig) (m *Machine, err error) { return NewBrontideMachine(cfg) }
+func verifNewMachineKK(cfg *BrontideMachineConfig) (m *Machine, err error) { return NewBrontideMachine(cfg) }
+
+//@ func verifNewMachineXX(cfg *BrontideMachineConfig) (m *Machine, err error)
+//@   props C03 C04 C07
+//@   withinit
+//@   noframe
+//@   requires cfg != nil && is[*ConnData](cfg.ConnData) && as[*ConnData](cfg.ConnData) != nil && !isnil(as[*ConnData](cfg.ConnData).localKey)
+//@   requires cfg.MinHandshakeVersion <= cfg.MaxHandshakeVersion && cfg.MaxHandshakeVersion <= MaxHandshakeVersion
+//@   requires same(cfg.HandshakePattern, XXPattern)
+//@   ensures implies(err == nil, fresh(m) && hsfresh(m) && m.initiator == cfg.Initiator && same(m.pattern, XXPattern))
+//@   ensures @C04 implies(err == nil, m.maxVersion == cfg.MaxHandshakeVersion && m.minVersion == cfg.MinHandshakeVersion)
+//@   ensures @C04 implies(err == nil, implies(cfg.Initiator, m.version == m.minVersion) && implies(!cfg.Initiator, m.version == m.maxVersion))
+
+//@ func verifNewMachineKK(cfg *BrontideMachineConfig) (m *Machine, err error)
+//@   props C03 C04 C07
+//@   withinit
+//@   noframe
+//@   requires cfg != nil && is[*ConnData](cfg.ConnData) && as[*ConnData](cfg.ConnData) != nil && !isnil(as[*ConnData](cfg.ConnData).localKey)
+//@   requires cfg.MinHandshakeVersion <= cfg.MaxHandshakeVersion && cfg.MaxHandshakeVersion <= MaxHandshakeVersion
+//@   requires same(cfg.HandshakePattern, KKPattern)
+//@   ensures implies(err == nil, fresh(m) && hsfresh(m) && m.initiator == cfg.Initiator && same(m.pattern, KKPattern))
+//@   ensures @C04 implies(err == nil, m.maxVersion == cfg.MaxHandshakeVersion && m.minVersion >= cfg.MinHandshakeVersion && m.minVersion >= HandshakeVersion2)
+//@   ensures @C04 implies(err == nil, implies(cfg.Initiator, m.version == m.minVersion) && implies(!cfg.Initiator, m.version == m.maxVersion))
+//@   ensures @C03 implies(err == nil, m.remoteStatic != nil && m.remoteStatic == as[*ConnData](cfg.ConnData).remoteKey)
+
 // hsfresh: no traffic keys yet.
 func hsfresh(b *Machine) bool {
 	return hsready(b) && isnil(b.sendCipher.cipher) && isnil(b.recvCipher.cipher)
@@ -680,6 +752,7 @@ func verifKKInitiator(b *Machine, rw io.ReadWriter) (err error) { return b.DoHan
 //@   noframe
 //@   requires hsfresh(b) && !isnil(rw) && !b.initiator && same(b.pattern, XXPattern) && b.version == b.maxVersion
 //@   ensures @C03 implies(wirelen() > old(wirelen()), nopens() >= old(nopens())+1 && openok(old(nopens())))
+//@   ensures @C03 implies(nopens() > old(nopens()), b.remoteEphemeral != nil)
 //@   ensures @C03 implies(hskeyed(b) || err == nil, opens3(old(nopens())))
 //@   ensures @C03 implies(err == nil, csinv(&b.sendCipher) && csinv(&b.recvCipher))
 //@   ensures @C03 implies(hscd(b).remoteKey != old(hscd(b).remoteKey), opens3(old(nopens())) && hskeyed(b))
